@@ -28,7 +28,9 @@ def instances(tier):
 
 
 def explore(ctx, prog, runtime, budget, with_sup, cancel_points=False):
-    I1, a1, pm = lt.explore_process_message(prog, runtime, budget)
+    # the loop runs while the actor is Running / Upgrading / Draining: whatever it reads about its own status is any of those (a status-dependent reaction
+    # cannot hide behind a constant fixture)
+    I1, a1, pm = lt.explore_process_message(prog, runtime, budget, loop_status=(2, 4))
     ctx.absorb(I1)
     S = lt.classes_of(pm)
     I, a, res = lt.explore_lifecycle(prog, S, runtime, budget, with_sup, cancel_points=cancel_points, kill_reason=lt.kill_reason_of(pm))
